@@ -12,6 +12,18 @@ type PropDef struct {
 var propOrder = []string{"C01", "C02", "C03", "C04", "C05", "C06", "C07", "C08", "C09", "C11", "C12", "C13", "C14", "C15", "C16", "C17", "C18", "C19", "C20"}
 
 var props = map[string]*PropDef{
+	"C07": {
+		Rules:      []string{"NAMES-1", "BUF-1", "STALE-3", "FP-3", "FP-4"},
+		Decided:    "(in progress)",
+		NotDecided: "(in progress)",
+		Technique:  "path-sensitive go/cfg dataflow",
+	},
+	"C16": {
+		Rules:      []string{"STALE-1", "TXN-2", "NAMES-1", "BUF-1", "FP-2"},
+		Decided:    "(in progress)",
+		NotDecided: "(in progress)",
+		Technique:  "path-sensitive go/cfg dataflow",
+	},
 	"C02": {
 		Rules:      []string{"FP-1", "FP-2", "FP-3", "FP-4", "STALE-3"},
 		Decided:    "(in progress)",
@@ -31,7 +43,7 @@ var props = map[string]*PropDef{
 		Technique:  "path-sensitive go/cfg dataflow",
 	},
 	"C05": {
-		Rules:      []string{"STALE-1", "TXN-1", "TXN-2", "TXN-3"},
+		Rules:      []string{"STALE-1", "TXN-1", "TXN-2", "TXN-3", "NAMES-1", "BUF-1", "PEEK-1"},
 		Decided:    "(in progress)",
 		NotDecided: "(in progress)",
 		Technique:  "path-sensitive go/cfg dataflow",
